@@ -11,41 +11,63 @@ from contracts import dsl
 
 
 # =============================================================================== reductions
-def vec_prefix(ex, st, v, op, hint):
-    """Fresh prefix function P with P(0)=init, P(k+1)=op(P(k), v[k]) for 0<=k<n (definitional)."""
+def _outer_binders(terms):
+    """the enclosing binder constants (see values.binding) that occur in the given terms"""
+    names = set()
+    for t in terms:
+        if is_z3(t):
+            names |= free_consts(t)
+    return [b for b in BINDERS if b.decl().name() in names]
+
+
+def vec_prefix(ex, st, v, op, hint, sink=None):
+    """Fresh prefix function P with P(0)=init, P(k+1)=op(P(k), v[k]) for 0<=k<n (definitional).  When the vector's terms
+    depend on constants that an enclosing quantifier is about to bind, P takes them as extra arguments and its
+    definition is quantified over them.  Returns (Pf, params) with Pf(j) the application."""
     probe = v.at(z3.IntVal(0))
     if isinstance(probe, NF):
         raise Unsupported("scan over nullable values")
     so = to_z3(probe).sort()
     if so == B:
         so = I
-    P = z3.Function(fresh_name(hint), I, so)
     k = fresh(I, "k")
-    elem = v.at(k)
+    with binding(k):
+        elem = v.at(k)
     if to_z3(elem).sort() == B:
         elem = to_int(elem)
-    st.assume(z3.ForAll([k], z3.Implies(z3.And(0 <= k, k < to_z3(v.n)), P(k + 1) == op(P(k), elem))))
-    return P
+    params = _outer_binders([to_z3(elem), to_z3(v.n)])
+    P = z3.Function(fresh_name(hint), *([p.sort() for p in params] + [I, so]))
+
+    def Pf(j, P=P, params=params):
+        return P(*(list(params) + [to_z3(j)]))
+    body = z3.Implies(z3.And(0 <= k, k < to_z3(v.n)), Pf(k + 1) == op(Pf(k), elem))
+    f1 = z3.ForAll(list(params) + [k], body)
+    (sink if sink is not None else st.assume)(f1)
+    return Pf, params
+
+
+def global_fact(ex, f):
+    """A fact that holds in every state (the definition of a fresh function symbol, an instance of a proved lemma, a
+    congruence): kept per Exec and added to the hypotheses of every obligation generated afterwards.  Needed because
+    vector element closures are evaluated lazily, possibly while a formula for another state is being built."""
+    ex.__dict__.setdefault("global_facts", []).append(f)
+
+
+def _close(params, f):
+    return z3.ForAll(list(params), f) if params else f
 
 
 def prefix_sum_fn(ex, st, v):
-    """The prefix-sum function of vector object v: one function symbol per vector object and Exec (its recursive
-    definition is conservative, so it is assumed in whichever state mentions it)."""
+    """The prefix-sum function of vector object v: one function symbol per vector object and Exec; its recursive
+    definition is conservative and recorded as a global fact.  Returns (Pf, params)."""
     cache = ex.__dict__.setdefault("_psum_cache", {})
     hit = cache.get(id(v.at))
-    if hit is None or hit[1] is not v.at or hit[2] is not v.n:
-        s0 = type(st)(pc=[], heap=st.heap)
-        P = vec_prefix(ex, s0, v, lambda a, b: a + b, "psum")
-        s0.assume(P(0) == 0)
-        hit = (P, v.at, v.n, list(s0.pc))
+    if hit is None or hit[1] is not v.at or hit[2] is not v.n or any(not any(b.eq(x) for x in BINDERS) for b in hit[3]):
+        Pf, params = vec_prefix(ex, st, v, lambda a, b: a + b, "psum", sink=lambda f: global_fact(ex, f))
+        global_fact(ex, _close(params, Pf(0) == 0))
+        hit = (Pf, v.at, v.n, params)
         cache[id(v.at)] = hit
-    mark = "psumdef:%d" % id(v.at)
-    if st.ghost.get(mark) is not hit[0]:
-        for f in hit[3]:
-            st.assume(f)
-        st.ghost = dict(st.ghost)
-        st.ghost[mark] = hit[0]
-    return hit[0]
+    return hit[0], hit[3]
 
 
 def vec_sum(ex, st, v):
@@ -55,43 +77,47 @@ def vec_sum(ex, st, v):
         for i in range(v.n):
             r = scalar_binop(ex, st, "Add", r, v.at(i))
         return r
-    key = "sum:%d" % id(v.at)
-    hit = st.ghost.get(key)
-    if hit is not None and hit[1] is v.at and hit[2] is v.n:
-        return hit[0]          # the same vector object summed again on this path
-    P = prefix_sum_fn(ex, st, v)
-    total = P(to_z3(v.n))
+    sums = ex.__dict__.setdefault("_sums", {})
+    hit = sums.get(id(v.at))
+    if hit is not None and hit[1] is v.at and hit[2] is v.n and all(any(b.eq(x) for x in BINDERS) for b in hit[3]):
+        return hit[0]          # the same vector object summed again
+    Pf, params = prefix_sum_fn(ex, st, v)
+    nz = to_z3(v.n)
+    total = Pf(nz)
     # sign facts of a sum of non-negative terms (library lemmas psum_nonneg / psum_pos, proved by induction in
     # contracts/lemmas.py; used here instantiated at this vector)
     kk, jj = fresh(I, "k"), fresh(I, "j")
-    elem = to_z3(v.at(kk))
+    with binding(kk, jj):
+        elem = to_z3(v.at(kk))
+        elj = to_z3(v.at(jj))
     if elem.sort() == B:
         elem = to_int(elem)
-    allnn = z3.ForAll([kk], z3.Implies(z3.And(0 <= kk, kk < to_z3(v.n)), elem >= 0))
-    elj = to_z3(v.at(jj))
     if elj.sort() == B:
         elj = to_int(elj)
-    somepos = z3.Exists([jj], z3.And(0 <= jj, jj < to_z3(v.n), elj > 0))
-    st.assume(z3.Implies(allnn, total >= 0))
-    st.assume(z3.Implies(z3.And(allnn, somepos), total > 0))
+    allnn = z3.ForAll([kk], z3.Implies(z3.And(0 <= kk, kk < nz), elem >= 0))
+    somepos = z3.Exists([jj], z3.And(0 <= jj, jj < nz, elj > 0))
+    global_fact(ex, _close(params, z3.Implies(allnn, total >= 0)))
+    global_fact(ex, _close(params, z3.Implies(z3.And(allnn, somepos), total > 0)))
     used(ex, "sum of non-negative terms is non-negative, and positive if some term is (lemmas psum_nonneg, psum_pos)")
-    # congruence with the sums already taken on this path: vectors that agree element by element have equal sums
-    # (stated per pair, so that sums of a spec-side vector and of the code's own vector can be related)
+    # congruence with sums taken before: vectors of equal length that agree element by element have equal sums (stated
+    # per pair, so that a spec-side vector and the code's own vector can be related); a sum defined under binders is
+    # related for every value of them
     probe_sort = total.sort()
-    st.ghost = dict(st.ghost)
-    prev = list(st.ghost.get("sums", ()))
-    for (t2, v2) in prev[-6:]:
-        if t2.sort() != probe_sort:
-            continue
+    order = ex.__dict__.setdefault("_sum_order", [])
+    cands = [e for e in order if e[0].sort() == probe_sort and
+             ((not params and not e[2] and to_z3(e[1].n).eq(nz)) or params or e[2])][-10:]
+    for (t2, v2, p2) in cands:
         k = fresh(I, "k")
         try:
-            same = z3.And(to_z3(v.n) == to_z3(v2.n),
-                          z3.ForAll([k], z3.Implies(z3.And(0 <= k, k < to_z3(v.n)), to_z3(v.at(k)) == to_z3(v2.at(k)))))
+            with binding(k):
+                same = z3.And(to_z3(v2.n) == nz,
+                              z3.ForAll([k], z3.Implies(z3.And(0 <= k, k < nz), to_z3(v.at(k)) == to_z3(v2.at(k)))))
         except Exception:
             continue
-        st.assume(z3.Implies(same, total == t2))
-    st.ghost["sums"] = tuple(prev + [(total, v)])
-    st.ghost[key] = (total, v.at, v.n)
+        allp = list(params) + [x for x in p2 if not any(x.eq(y) for y in params)]
+        global_fact(ex, _close(allp, z3.Implies(same, total == t2)))
+    order.append((total, v, list(params)))
+    sums[id(v.at)] = (total, v.at, v.n, list(params))
     return total
 
 
@@ -476,7 +502,9 @@ def _num_like(b, r):
 def v_cumsum(ex, st, o, args, kwargs, node):
     v = st.get(o)
     used(ex, "cumsum()[k] = sum of the first k+1 elements")
-    P = vec_prefix(ex, st, v, lambda a, b: a + b, "cumsum")
+    P, _params = vec_prefix(ex, st, v, lambda a, b: a + b, "cumsum")
+    if _params:
+        raise Unsupported("cumsum of a vector defined under a quantifier")
     st.assume(P(0) == 0)
     return st.alloc(Vec(v.n, lambda k: P(to_z3(k) + 1), idx=v.idx, kind=v.kind))
 
@@ -1377,7 +1405,7 @@ def sp_psum(ex, st, args, kwargs, node):
     """psum(v, m): sum of the first m elements of v (the prefix function of v; spec language)"""
     v = st.get(args[0])
     m = st.get(args[1])
-    return prefix_sum_fn(ex, st, v)(to_z3(m))
+    return prefix_sum_fn(ex, st, v)[0](to_z3(m))
 
 
 @vm("drop_duplicates")
